@@ -6,7 +6,7 @@ use super::iface::*;
 use super::step::*;
 use crate::VRegs;
 
-fn any_start(prefix: u8, halted: bool) -> Start {
+fn any_start(prefix: u8, halted: bool, int: bool, nmi: bool) -> Start {
     let s = Start {
         regs: kani::any(),
         halted,
@@ -14,8 +14,8 @@ fn any_start(prefix: u8, halted: bool) -> Start {
         im: kani::any(),
         prefix,
         answers: kani::any(),
-        int: kani::any(),
-        nmi: kani::any(),
+        int,
+        nmi,
     };
     kani::assume(valid(&s));
     s
@@ -59,20 +59,20 @@ fn is_prefix(b: u8) -> bool {
     b == 0xCB || b == 0xDD || b == 0xED || b == 0xFD
 }
 
-/// instruction groups: any INT/NMI level, but no acceptance in this step (acceptance = int_* groups)
+/// instruction groups: INT and NMI low (acceptance = int_* groups; lines high but not accepted =
+/// `int_not_accepted`; concrete line levels keep the interrupt paths out of symbolic execution)
 macro_rules! group {
     ($name:ident, prefix = $p:expr, halted = $h:expr, bytes = [$($b:expr),*], |$a:ident| $cond:expr) => {
         #[kani::proof]
         #[kani::unwind(9)]
         fn $name() {
-            let mut s = any_start($p, $h);
+            let mut s = any_start($p, $h, false, false);
             let fixed: &[u8] = &[$($b),*];
             let mut k = 0;
             while k < fixed.len() {
                 s.answers[k] = fixed[k];
                 k += 1;
             }
-            kani::assume(!accepts(&s));
             let $a = &s.answers;
             kani::assume($cond);
             check(&s);
@@ -83,12 +83,12 @@ macro_rules! group {
 // One harness per prefix class.  The prefix bytes are concrete so symbolic execution prunes the
 // prefix decode; the opcode byte, every operand, bus answer and register is symbolic.
 group!(plain_all, prefix = 0, halted = false, bytes = [], |a| !is_prefix(a[0]) && a[0] != 0x76);
-group!(cb_all, prefix = 0, halted = false, bytes = [0xCB], |a| true);
+group!(cbx_all, prefix = 0, halted = false, bytes = [0xCB], |a| true);
 group!(ed_all, prefix = 0, halted = false, bytes = [0xED], |a| true);
 group!(dd_all, prefix = 0, halted = false, bytes = [0xDD], |a| a[1] != 0xCB);
 group!(fd_all, prefix = 0, halted = false, bytes = [0xFD], |a| a[1] != 0xCB);
-group!(ddcb_all, prefix = 0, halted = false, bytes = [0xDD, 0xCB], |a| true);
-group!(fdcb_all, prefix = 0, halted = false, bytes = [0xFD, 0xCB], |a| true);
+group!(ddcb_idx, prefix = 0, halted = false, bytes = [0xDD, 0xCB], |a| true);
+group!(fdcb_idx, prefix = 0, halted = false, bytes = [0xFD, 0xCB], |a| true);
 // second element of a prefix chain already fetched by the previous step
 group!(pend_dd, prefix = 0xDD, halted = false, bytes = [], |a| true);
 group!(pend_fd, prefix = 0xFD, halted = false, bytes = [], |a| true);
@@ -97,23 +97,43 @@ group!(pend_ed, prefix = 0xED, halted = false, bytes = [], |a| true);
 group!(halt_enter, prefix = 0, halted = false, bytes = [0x76], |a| true);
 group!(halt_stay, prefix = 0, halted = true, bytes = [0x76], |a| true);
 
-/// interrupt acceptance groups (C02): every CPU state incl. halted, the first handler
-/// instruction is a concrete NOP (the instruction space is the groups above)
+/// interrupt groups (C02): every register value, halted or not; the control inputs that decide
+/// acceptance (skip flag, line levels, IFF1, IM=2 or not) are concrete per harness so symbolic
+/// execution follows one acceptance path; the first handler instruction is a concrete NOP
+/// (the instruction space is covered by the groups above)
+fn int_case(skip: bool, int: bool, nmi: bool, iff1: bool, im2: bool, nop_at: usize) {
+    let halted: bool = kani::any();
+    let mut s = any_start(0, halted, int, nmi);
+    s.skip_interrupt = skip;
+    s.regs.iff1 = iff1;
+    if im2 {
+        s.im = 2;
+    } else {
+        kani::assume(s.im != 2);
+    }
+    s.answers[nop_at] = 0x00;
+    // a halted CPU that is not released re-fetches its HALT opcode
+    let accepted = !skip && (nmi || (int && iff1));
+    if !accepted {
+        kani::assume(!halted);
+    }
+    check(&s);
+}
+
 macro_rules! int_group {
-    ($name:ident, nop_at = $k:expr, |$s:ident| $cond:expr) => {
+    ($name:ident, $skip:expr, $int:expr, $nmi:expr, $iff1:expr, $im2:expr, $k:expr) => {
         #[kani::proof]
         #[kani::unwind(9)]
         fn $name() {
-            let halted: bool = kani::any();
-            let mut s = any_start(0, halted);
-            s.answers[$k] = 0x00;
-            kani::assume(accepts(&s));
-            let $s = &s;
-            kani::assume($cond);
-            check(&s);
+            int_case($skip, $int, $nmi, $iff1, $im2, $k);
         }
     };
 }
-int_group!(int_nmi, nop_at = 0, |s| s.nmi);
-int_group!(int_im01, nop_at = 0, |s| !s.nmi && s.im != 2);
-int_group!(int_im2, nop_at = 3, |s| !s.nmi && s.im == 2);
+// accepted
+int_group!(int_nmi_intlow, false, false, true, true, false, 0);
+int_group!(int_nmi_inthigh, false, true, true, false, true, 0);
+int_group!(int_im01, false, true, false, true, false, 0);
+int_group!(int_im2, false, true, false, true, true, 3);
+// not accepted: IFF1 clear; EI/DI/prefix shadow with both lines high
+int_group!(int_masked, false, true, false, false, false, 0);
+int_group!(int_shadow, true, true, true, true, true, 0);
